@@ -112,15 +112,33 @@ def stores_to_field(fn, field, owner=None):
     """(bb, stmt index, stmt) of every MIR store whose destination place ends in `.field`
     (of ADT `owner` if given) or passes through it"""
     out = []
+    T_ = None
+    def through_ref(p):
+        """the destination is *r where r was bound to &mut x.field (a helper that got the field by reference)"""
+        nonlocal T_
+        if not p["proj"] or p["proj"][0]["k"] != "deref":
+            return False
+        if T_ is None:
+            T_ = M.Terms(fn)
+        t = T_.place({"l": p["l"], "proj": p["proj"][:1], "ty": p.get("ty")})
+        while t and t[0] in ("deref", "ref"):
+            t = t[1]
+        if not (t and t[0] == "field" and t[2] == field):
+            return False
+        # the rest of the projection must not go into a sub-field named differently (a store *into* the field still counts)
+        return True
     for bb in sorted(fn.live_blocks()):
         b = fn.blocks[bb]
         for si, s in enumerate(b["stmts"]):
             if s["k"] not in ("assign", "setdiscr"):
                 continue
+            hit = False
             for e in s["p"]["proj"]:
                 if e["k"] == "field" and e["name"] == field and (owner is None or e["of"] == owner):
-                    out.append((bb, si, s))
+                    hit = True
                     break
+            if hit or through_ref(s["p"]):
+                out.append((bb, si, s))
         t = b["term"]
         if t["k"] == "call":
             for e in t["dest"]["proj"]:
@@ -698,3 +716,76 @@ def pipeline_spawner(prog):
     name, so that extracting the loop out of Pipeline::popen into a helper does not move the anchor"""
     cands = sorted({f.path for f, _, _ in callers_of(prog, "builder::exec::Exec::popen") if f.path.startswith("builder::pipeline")})
     return cands[0] if len(cands) == 1 else None
+
+
+# ----------------------------------------------------------------------------
+# Option pipelines, however written: x.map(|p| e) / x.and_then(|p| oe) / match x { Some(p) => Some(e), None => None } / if let
+# ----------------------------------------------------------------------------
+
+class OptBody:
+    """Where and how the Some-case of an Option-valued term is computed from the payload of its source Option.
+    fn/T: the function (closure or the enclosing function) holding the computation; payload: the term standing for the
+    source's payload there; results: [(block, value term)] of the payload values produced (the inside of Some(..));
+    none_ok: the None case of the source yields None."""
+    def __init__(self, fn, T, payload, results, none_ok, form):
+        self.fn, self.T, self.payload, self.results, self.none_ok, self.form = fn, T, payload, results, none_ok, form
+
+
+def option_body(prog, fn, T, term, src_pred):
+    """Analyse `term` (an Option computed from the Option satisfying src_pred).  Returns OptBody or None if not recognised."""
+    t = term
+    NONE = ("agg", ("adt", "std::option::Option", "None"), ())
+    if t[0] == "call" and t[1] in ("std::option::Option::<T>::map", "std::option::Option::<T>::and_then") and len(t[2]) == 2 and src_pred(M.noref(t[2][0])):
+        cl = t[2][1]
+        if cl[0] == "agg" and cl[1][0] == "closure" and cl[1][1] in prog.fns:
+            cf = prog.fns[cl[1][1]]
+            Tf = M.Terms(cf)
+            payload = ("param", 2, cf.local_name(2))
+            res = []
+            for bb in cf.live_blocks():
+                for s in cf.blocks[bb]["stmts"]:
+                    if s["k"] == "assign" and s["p"]["l"] == 0 and not s["p"]["proj"]:
+                        res.append((bb, Tf.rvalue(s["r"])))
+                tt = cf.blocks[bb]["term"]
+                if tt["k"] == "call" and not tt["dest"]["proj"] and tt["dest"]["l"] == 0:
+                    res.append((bb, ("call", M.callee_str(tt["f"]), tuple(Tf.operand(a) for a in tt["args"]), bb)))
+            # values that are mere copies of a local assigned elsewhere are resolved by Terms already
+            return OptBody(cf, Tf, payload, res, True, "map" if t[1].endswith("::map") else "and_then")
+        return None
+    al = M.alts(t)
+    somes = [a for a in al if a[0] == "agg" and a[1][:3] == ("adt", "std::option::Option", "Some")]
+    nones = [a for a in al if a == NONE]
+    others = [a for a in al if a not in somes and a not in nones]
+    if somes and not others:
+        # match form: the payload of the source appears as (src as Some).0
+        pay = None
+        def find(u):
+            nonlocal pay
+            if u[0] == "field" and u[2] == "0" and u[1][0] == "downcast" and u[1][2] == "Some" and src_pred(M.noref(u[1][1])):
+                pay = u
+                return True
+            return False
+        for a in somes:
+            M.contains(a, find)
+        res = []
+        for a in somes:
+            # the block where this Some(..) is built
+            for bb in fn.live_blocks():
+                for s in fn.blocks[bb]["stmts"]:
+                    if s["k"] == "assign" and s["r"]["k"] == "agg" and s["r"].get("adt") == "std::option::Option" and s["r"]["variant"] == "Some" and T.rvalue(s["r"]) == a:
+                        res.append((bb, a[2][0]))
+        return OptBody(fn, T, pay, res, bool(nones), "match")
+    if others and not somes:
+        # checked_add-style: the alternatives are themselves Option-valued calls on the payload
+        pay = None
+        def find(u):
+            nonlocal pay
+            if u[0] == "field" and u[2] == "0" and u[1][0] == "downcast" and u[1][2] == "Some" and src_pred(M.noref(u[1][1])):
+                pay = u
+                return True
+            return False
+        for a in others:
+            M.contains(a, find)
+        if pay is not None:
+            return OptBody(fn, T, pay, [(a[3] if a[0] == "call" and len(a) > 3 else None, a) for a in others], bool(nones), "match-opt")
+    return None
